@@ -43,15 +43,26 @@ def _mk(s):
     return ({'rows': s['dims'], 'cols': s['dims'], 'ranks': s['rA']}, {'rows': s['dims'], 'cols': [1] * d, 'ranks': s['rx']})
 
 
+_PD_SHIFT = 24     # concrete runs: C + C^H + 24 I is positive definite for entries in (-1, 1) and at most 8 states
+
+
 def _herm_tt(ctx, name, sA, cplx):
-    """a Hermitian TT operator for ALL values of its free entries: C + C^H"""
+    """a Hermitian TT operator for ALL values of its free entries: C + C^H.  The right-hand operator B of a generalised problem must also be positive
+    definite (eigh factorises it; for an indefinite B the pencil has complex eigenvalues): in the CONCRETE modes (replays, validation runs) a multiple of
+    the identity is added to B.  The symbolic obligations are algebraic identities that hold for every Hermitian B."""
     C = ctx.R.TT(mk_cores(ctx, name, sA, cplx))
-    return C + C.transpose(conjugate=True)
+    H = C + C.transpose(conjugate=True)
+    if name == 'B' and not ctx.sym:
+        H = H + _PD_SHIFT * ctx.R.tt.eye(list(sA['rows']))
+    return H
 
 
 def _herm_dense(ctx, name, sA, cplx, d):
     Cd = D.as_matrix(D.tt_full(ctx, mk_cores(ctx, name, sA, cplx)), d)
-    return D.add(ctx, Cd, D.conj_t(ctx, Cd))
+    H = D.add(ctx, Cd, D.conj_t(ctx, Cd))
+    if name == 'B' and not ctx.sym:
+        H = D.add(ctx, H, D.scale(ctx, ctx.const_frac(_PD_SHIFT), D.eye(ctx, H.shape[0])))
+    return H
 
 
 class Rec(object):
@@ -112,6 +123,8 @@ def _grid(tier):
             for gevp in (False, True):
                 for nprev in (0, 1) if tier == 'quick' else (0, 1, 2):
                     for solver in ('eig', 'eigh', 'eigs'):
+                        if solver == 'eigs' and min(s['rx'][i] * s['dims'][i] * s['rx'][i + 1] for i in range(len(s['dims']))) < 4:
+                            continue        # ARPACK (the real eigs) needs k < N - 1: micro systems with fewer than 4 unknowns are inadmissible
                         if tier == 'quick':
                             if solver != 'eig' and (cplx or nprev or gevp and solver == 'eigs'):
                                 continue
@@ -138,6 +151,8 @@ def als(ctx, shape, cplx, gevp, nprev, solver, number_ev, repeats, perm):
     """projected pencil == Galerkin projection at every step; reported eigenpair == selected Ritz pair; inputs unchanged"""
     TT = ctx.R.TT
     evp = ctx.R.evp
+    if ctx.mode == 'tv' and number_ev > 1:
+        raise SkipTV()          # several eigenvectors at once: their signs depend on how LAPACK is reached (buffer layout), the two concrete runs need not agree
     d = len(shape['dims'])
     sA, sx = _mk(shape)
     sigma = ctx.scalar('sigma')
